@@ -119,6 +119,9 @@ fn main() {
             let out = PathBuf::from(arg_val(&args, "--out").unwrap_or_else(|| "/verif/work/replay".to_string()));
             std::process::exit(runner::replay_inner(prop.as_ref(), &rec, &out));
         }
+        "os-conformance" => {
+            std::process::exit(if gdsim::osprobe::run() { 0 } else { 2 });
+        }
         "dump-ports" => {
             // snapshot of the definitions table's default ports (golden data, committed)
             let mut m = std::collections::BTreeMap::new();
